@@ -142,6 +142,7 @@ def run(case: dict, ctx) -> dict:
         for _ in range(4):
             reqs.append((max(0, h_ + rng.randrange(-70000, (1 << 20))), rng.randrange(1, 150000)))
     cnt["vhdx_beyond_first_chunk_cases"] = int(bool(hot))
+    fault_retry_reads(s, model, reqs, rng, res, MECH, n=3)  # cold caches
     continuation_reads(s, model, reqs, rng, res, MECH)
     fault_retry_reads(s, model, reqs, rng, res, MECH)
     compare_reads(s, model, reqs, res, MECH, byte_cap=(24 << 20))
